@@ -10,6 +10,7 @@ sys.path.insert(0, os.path.join(common.VERIF, "tx"))
 sys.path.insert(0, os.path.join(common.VERIF, "harness"))
 import rk as txrk
 import evolveexact as txee
+import thermalsites as txts
 import c09 as C9
 
 REPROS = {
@@ -65,6 +66,16 @@ REPROS = {
         "ref = U @ r0; ref /= np.linalg.norm(ref)\n"
         "err = np.abs(got - ref).max(); print('ThermalProp exact, EX space, from a^dagger thermal(GS): max |rho - U rho0/norm| =', err)\n"
         "sys.exit(1 if err > 1e-9 else 0)\n",
+    "finite-temperature-entry-point-beta":
+        "import renormalizer\nimport numpy as np, sys\nfrom renormalizer.model import HolsteinModel, Mol, Phonon\nfrom renormalizer.transport import ChargeDiffusionDynamics, InitElectron\n"
+        "from renormalizer.utils import Quantity, CompressConfig, CompressCriteria\n"
+        "w, n, beta = 1.0, 4, 0.7\n"
+        "model = HolsteinModel([Mol(Quantity(0.0), [Phonon.simple_phonon(Quantity(w), Quantity(0.5), n)])] * 3, Quantity(0.4))\n"
+        "ct = ChargeDiffusionDynamics(model, temperature=Quantity(1.0/beta, 'a.u.'), init_electron=InitElectron.fc, compress_config=CompressConfig(CompressCriteria.fixed, max_bonddim=16))\n"
+        "k = np.arange(n); p = np.exp(-beta*w*k); ref = (k*p).sum()/p.sum(); p2 = np.exp(-2*beta*w*k)\n"
+        "got = np.real(ct.ph_occupations_array[0])\n"
+        "print('ChargeDiffusionDynamics at T = 1/beta: t=0 vibrational occupations', got, ' Bose-Einstein (truncated) at beta:', ref, ' at 2 beta:', (k*p2).sum()/p2.sum())\n"
+        "sys.exit(1 if np.abs(got - ref).max() > 1e-6 else 0)\n",
     "evolve-exact-imaginary-dt":
         "import renormalizer\nimport numpy as np, sys\nfrom renormalizer.model import HolsteinModel, Mol, Phonon\nfrom renormalizer.mps import Mps, Mpo\n"
         "from renormalizer.utils import Quantity\n"
@@ -213,10 +224,17 @@ def run(ctx):
     except Exception as e:
         ctx.notes.append("translator tx/evolveexact.py failed: %r" % (e,))
         broken.append("translator tx/evolveexact.py")
+    sites = None
+    try:
+        text3, sites = txts.main(common.REPO)
+        ctx.regen("Gen/ThermalSites.v", text3)
+    except Exception as e:
+        ctx.notes.append("translator tx/thermalsites.py failed: %r" % (e,))
+        broken.append("translator tx/thermalsites.py")
     ok_build, log = (False, "translator failed")
     ok_props = False
-    if tabs is not None and einfo is not None:
-        ok_build, log = ctx.coq_make(["Proofs/PropProofs.vo", "Gen/EvolveExact.vo"])
+    if tabs is not None and einfo is not None and sites is not None:
+        ok_build, log = ctx.coq_make(["Proofs/PropProofs.vo", "Gen/EvolveExact.vo", "Gen/ThermalSites.vo"])
         if ok_build:
             ok_props, log = ctx.props("Props/C10.v")
     if not ok_build:
@@ -235,12 +253,13 @@ def run(ctx):
                 jobs.append(("pc", dict(C9.pc_payload(seed + 13 * i, True, tabs, ti, taylor, 3 if quick else 6), script="c09_pc.py")))
     for i in range(2 if quick else 6):
         jobs.append(("exact", {"script": "c10_exact.py", "seed": seed + 29 * i, "n": 4 if quick else 10, "n_int": 2 if quick else 5}))
+    jobs.append(("sites", {"script": "c10_sites.py", "seed": seed + 5}))
     nsh = 12
     for i in range(nsh):
         jobs.append(("oracle", {"script": "c10_oracle.py", "seed": seed, "shard": i, "nshards": nsh, "tier": ctx.tier, "budget_s": 75 if quick else 900}))
-    jobs.sort(key=lambda j: {"oracle": 0, "pc": 1, "exact": 2}[j[0]])
+    jobs.sort(key=lambda j: {"oracle": 0, "pc": 1, "exact": 2, "sites": 1}[j[0]])
     results = ctx.impl_par("c09_dispatch.py", [p for _, p in jobs], timeout=(420 if quick else 3000), par=14)
-    by = {"pc": [], "exact": [], "oracle": []}
+    by = {"pc": [], "exact": [], "oracle": [], "sites": []}
     for (kind, _), r in zip(jobs, results):
         by[kind].append(r)
     for rc, res, raw in by["pc"]:
@@ -254,6 +273,22 @@ def run(ctx):
         samples += res["samples"][:1]
     n_pc = ev
     classes = {}
+    n_sites = 0
+    for rc, res, raw in by["sites"]:
+        if res is None or "n" not in res:
+            corr_bad.append({"what": "c10_sites.py failed", "out": (raw or "")[-800:]})
+            continue
+        n_sites += res["n"]
+        ev += res["n"]
+        if res["nbad"]:
+            classes.setdefault("finite-temperature-entry-point-beta", []).extend(res["bad"])
+        samples += res["samples"][:1]
+    if sites is not None:
+        wrong = [x for x in sites if x["form"] != "BetaOver2j"]
+        if wrong:
+            classes.setdefault("finite-temperature-entry-point-beta", []).append({"source": "tx/thermalsites.py", "sites_not_beta_over_2j": wrong})
+        ctx.notes.append("finite-T entry points: %d call sites of ThermalProp.evolve in the package (all to_beta()/2j: %s); %d logged propagations / t=0 observables checked"
+                         % (len(sites), not wrong, n_sites))
     ties = []
     n_or = 0
     for rc, res, raw in by["exact"]:
@@ -340,6 +375,7 @@ def run(ctx):
     for key, recs in sorted(classes.items()):
         repro = REPROS.get(key)
         what = {"cmf-imag-midpoint-realtime": "oracle clause `every scheme that supports imaginary time yields exp(-tau H) psi / norm within its own order`",
+                "finite-temperature-entry-point-beta": "theorem C10_thermal_sites_half_beta (generated call-site table) and the oracle on the package's finite-temperature entry points (total imaginary time = beta/2, occupations = canonical averages at beta)",
                 "imag-input-reuse": "oracle: imaginary-time evolution from a re-used input object / with adaptive stepping (the input must not be overwritten)",
                 "evolve-exact-imaginary-dt": "oracle: Mps/MpDm.evolve_exact with an imaginary evolve_dt vs exp(-tau H_loc)",
                 "exact-propagator-dense": "theorem C10_exact_prop_dense (tie) / dense oracle of Mpo.exact_propagator GS and EX",
@@ -353,5 +389,5 @@ def run(ctx):
     return {"evaluations": ev, "distinct_nontrivial": nontriv,
             "rule": "imaginary P&C: a (model, state, scheme, dt) case counts once its dense result matched the Coq-exported polynomial in -tau H to 1e-10; exact_propagator: a propagator counts if bond dimensions, off-diagonals, the scaled site and the exponent of every configuration equal the model; oracle checks are counted in evaluations only",
             "samples": samples[:3], "exhaustive": False,
-            "input_distribution": {"imag_pc_cases": n_pc, "purified_integer_ties": n_int, "purified_integer_ties_exact": n_int_ok, "exact_propagator_ties": n_tie, "exact_propagator_ties_equal": n_tie_ok,
+            "input_distribution": {"imag_pc_cases": n_pc, "finite_T_entry_point_checks": n_sites, "purified_integer_ties": n_int, "purified_integer_ties_exact": n_int_ok, "exact_propagator_ties": n_tie, "exact_propagator_ties_equal": n_tie_ok,
                                    "oracle_checks": n_or, "oracle_jobs_skipped": skipped, "violation_classes": {k: len(v) for k, v in classes.items()}}}
